@@ -51,7 +51,7 @@ impl Prop for C12 {
     fn families(&self, tier: Tier) -> Vec<Family<Case>> {
         let mut f = Vec::new();
         let pairs = same_kind_pairs();
-        let amounts: Vec<&'static str> = tier.pick(vec!["1", "2.5"], vec!["1", "2.5", "1000", "0.001", "123456"]);
+        let amounts: Vec<&'static str> = tier.pick(vec!["1", "2.5"], vec!["1", "2.5", "1000", "0.001", "123456", "0", "7", "0.5", "999.995", "1000000.75", "12.5", "0.000001"]);
         {
             let (pairs, amounts, convs) = (pairs.clone(), amounts.clone(), convs(tier));
             f.push(Family::new(
@@ -66,6 +66,25 @@ impl Prop for C12 {
                     let want = lit::value(a) * ua.factor / ub.factor;
                     let text = format!("{} {} to {}", lit::render(a, &conv, false), ua.short, ub.short);
                     Some(Case::Line(LineCase::new(text, Expect::Value(unit_val(want, ub), 1e-9), "pair").with_cfg(cfg_of(&conv))))
+                },
+            ));
+        }
+        if tier == Tier::Thorough {
+            let pairs = pairs.clone();
+            f.push(Family::new(
+                "pairs-all-spellings",
+                Mode::Full,
+                "thorough only: every ordered same-kind pair x every configured source spelling x every configured target name x amounts [3, 0.75] x connectives to / as / into",
+                move |ch| {
+                    let (i, j) = *ch.pick(&pairs);
+                    let (src, _) = units::spellings(&UNITS[i]);
+                    let (_, tgt) = units::spellings(&UNITS[j]);
+                    let s = ch.pick(&src).clone();
+                    let t = ch.pick(&tgt).clone();
+                    let (at, a) = *ch.pick(&[("3", 3.0), ("0,75", 0.75)]);
+                    let conn = *ch.pick(&["to", "as", "into"]);
+                    let want = a * UNITS[i].factor / UNITS[j].factor;
+                    Some(Case::Line(LineCase::new(format!("{} {} {} {}", at, s, conn, t), Expect::Value(unit_val(want, &UNITS[j]), 1e-9), "spelling-pair")))
                 },
             ));
         }
